@@ -34,7 +34,7 @@ ASSUMPTIONS = [
     "residue a refused construction may leave in shared state is judged by C09, not here",
 ]
 ALSO_OPTIMIZED = True      # the whole check is repeated under `python -O` (a refusal written as an assert vanishes there)
-REQUIRED_PROBES = ["refused_blocksize", "refused_opcode", "refused_service_action", "refused_xcopy", "refused_transport_id", "valid_between", "refusal_inside_with"]
+REQUIRED_PROBES = ["refused_blocksize", "refused_opcode", "refused_service_action", "refused_xcopy", "refused_transport_id", "valid_between", "refusal_inside_with", "refused_again", "facade_default_blocksize"]
 
 BS_METHODS = ["read10", "read12", "read16", "write10", "write12", "write16", "writesame10", "writesame16", "atapassthrough12", "atapassthrough16"]
 NO_FIXED_LEN = set(range(0x60, 0x80)) | set(range(0xC0, 0x100))
@@ -80,7 +80,7 @@ def gen_invalid(rng, cfg):
             junk = rng.choice(["length", "descriptor", "descriptor_length_", "type_code", "d", "_", "", "DC", "dc ", "block", "id", {"$int": 7}])
         if what == "segment_key_b2s":
             junk = rng.choice(["dc", "fco", "source_block_device_logical_block_address", "bogus"])
-        return {"op": "invalid", "kind": "xcopy", "ver": ver, "what": what, "junk": junk, "falsy": rng.choice([None, None, "zero", "false", "empty", "name"]),
+        return {"op": "invalid", "kind": "xcopy", "ver": ver, "what": what, "junk": junk, "falsy": rng.choice([None, None, "zero", "false", "empty", "name", "cross", "cross"]),
                 "dt": rng.choice([4, 7, 2, 6, 8, 0x1F, rng.randrange(64)]),
                 "code": rng.choice([0x10, 0x7F, 0xDF, 0xFF, 0x55]), "nvalid": rng.randrange(3)}
     op = {"op": "invalid", "kind": "transport_id", "what": rng.choice(["sid_no_format", "format_no_sid"]),
@@ -110,13 +110,15 @@ def generate(rng, idx, tier):
             ops.append({"op": "set_blocksize", "v": bs})
         elif r < 0.55:
             ops.append(gen_invalid(rng, cfg))
+            if rng.random() < 0.25:
+                ops[-1]["twice"] = True       # the application tries the very same request again: it is refused again
             if rng.random() < 0.12:
                 # the request is made inside `with SCSI(device) as s:` over an application-defined device whose close() returns a value
                 ops[-1]["in_with"] = rng.choice([True, 1, "closed"])
         else:
             m = rng.choice(VALID)
             ops.append(dict(op="valid", **F.gen_call(rng, m, cfg)))
-    return {"property": ID, "config": {"device": rng.choice(["sgio", "iscsi", "plain"]), "blocksize": start_bs}, "ops": ops}
+    return {"property": ID, "config": {"device": rng.choice(["sgio", "iscsi", "plain"]), "blocksize": start_bs, "omit_blocksize": rng.random() < 0.5}, "ops": ops}
 
 
 # descriptor type codes the SPC-4/SPC-5 code spaces give to the two positions (segment descriptors 00h-1Fh and the ROD ones BEh/BFh;
@@ -147,7 +149,7 @@ def enumerated(k, tier):
         if m == "writesame16":
             call["kw"].pop("ndob", None)
             call["args"][2] = {"$b": [1, 512]}
-        return {"property": ID, "config": {"device": ["plain", "sgio", "iscsi"][k % 3], "blocksize": 0},
+        return {"property": ID, "config": {"device": ["plain", "sgio", "iscsi"][k % 3], "blocksize": 0, "omit_blocksize": (k // 3) % 2 == 1},
                 "ops": [dict(op="valid", **F.gen_call(rng, "inquiry", cfg)), dict(op="invalid", kind="blocksize", **call)]}
     k -= len(BS_METHODS) * 3
     if k >= 43:
@@ -193,11 +195,12 @@ def xcopy_kwargs(op):
         if spc5 and op["code"] % 3 == 0:
             targets[-1]["descriptor_type_code"] = 0xE3       # Parallel Interface T_L: a CSCD type SPC-5 no longer defines
         if op.get("falsy") is not None:
-            targets[-1]["descriptor_type_code"] = {"zero": 0, "false": False, "empty": "", "name": "No such descriptor"}[op["falsy"]]
+            # "cross": the name of a *segment* descriptor type in a target/CSCD position (valid elsewhere, unknown here)
+            targets[-1]["descriptor_type_code"] = {"zero": 0, "false": False, "empty": "", "name": "No such descriptor", "cross": F.SEG_NAME}[op["falsy"]]
     elif w == "segment_code":
         segs[-1]["descriptor_type_code"] = op["code"] if op["code"] > 0x20 else 0xFF
-        if op.get("falsy") in ("empty", "name"):
-            segs[-1]["descriptor_type_code"] = {"empty": "", "name": "No such descriptor"}[op["falsy"]]
+        if op.get("falsy") in ("empty", "name", "cross"):
+            segs[-1]["descriptor_type_code"] = {"empty": "", "name": "No such descriptor", "cross": F.TGT_NAME[5 if spc5 else 4]}[op["falsy"]]
     elif w == "device_type":
         # peripheral device types an EXTENDED COPY CSCD/target descriptor may name: SPC-4 table 106 {00,01,03,04,05,07,0E}; SPC-5 dropped 04h and 07h
         valid = {0, 1, 3, 4, 5, 7, 0x0E} if not spc5 else {0, 1, 3, 5, 0x0E}
@@ -222,9 +225,12 @@ def execute(prog):
     if cfg["device"] == "plain":
         from props.c13 import PlainDevice
         dev = PlainDevice(E.sbc, lu, 0)
-        scsi = SCSI(dev, blocksize=cfg["blocksize"])
     else:
         dev = worlds.open_device(cfg["device"], lu)
+    if cfg["blocksize"] == 0 and cfg.get("omit_blocksize"):
+        scsi = SCSI(dev)                 # the application never says a block size: the facade's documented default is "none"
+        WORLD.probe("facade_default_blocksize")
+    else:
         scsi = SCSI(dev, blocksize=cfg["blocksize"])
     V = []
     summary = []
@@ -267,6 +273,7 @@ def execute(prog):
 
     WITH = []
     outer = scsi
+    model_bs = [cfg["blocksize"]]      # the block size the application gave the facade (0 = none); the facade's own idea is not consulted
     for i, op in enumerate(prog["ops"]):
         WORLD.ev("op", i=i, op=op["op"], what=op.get("kind"))
         name = op["op"]
@@ -280,6 +287,7 @@ def execute(prog):
             WITH.append(scsi)
         if name == "set_blocksize":
             scsi.blocksize = op["v"]
+            model_bs[0] = op["v"]
             summary.append("bs=%d" % op["v"])
         elif name == "valid":
             dl0 = len(WORLD.deliveries)
@@ -290,7 +298,7 @@ def execute(prog):
         elif name == "invalid" and op["kind"] == "blocksize":
             m = op["m"]
             args, kw = F.real_args(op["args"]), F.real_args(op["kw"])
-            if not m.startswith("atapassthrough") and scsi.blocksize != 0:
+            if not m.startswith("atapassthrough") and model_bs[0] != 0:
                 # only invalid while the facade has no block size: make it so for this request
                 saved = scsi.blocksize
                 scsi.blocksize = 0
@@ -336,6 +344,11 @@ def execute(prog):
             kw = xcopy_kwargs(op)
             meth = scsi.extendedcopy5 if op["ver"] == 5 else scsi.extendedcopy4
             summary.append(refused(lambda: meth(**kw), ValueError, "xcopy%d" % op["ver"], "refused_xcopy", op["what"] + ("=%#04x" % op["code"] if op.get("exact") else "")))
+            if op.get("twice"):
+                kw2 = xcopy_kwargs(op)        # equal arguments, fresh objects
+                meth = scsi.extendedcopy5 if op["ver"] == 5 else scsi.extendedcopy4
+                WORLD.probe("refused_again")
+                summary.append(refused(lambda: meth(**kw2), ValueError, "xcopy%d" % op["ver"], "refused_xcopy", op["what"] + "/again"))
         elif name == "invalid" and op["kind"] == "transport_id":
             if op["what"] == "sid_no_format":
                 tid = {"protocol_id": 5, "iscsi_name": "iqn.2026-10.verif:a", "iscsi_initiator_session_id": "00023d000001"}
